@@ -22,7 +22,7 @@ VARIABLES l, pend
 tvars == <<vars, l, pend>>
 Trace == ndJsonDeserialize("trace.ndjson")
 ASSUME TLCSet(1, 0)
-Proc == {"w", "d", "g", "r", "c"}
+Proc == {"w", "d", "g", "r", "c", "x"}
 NoCall == [op |-> "none", done |-> FALSE, res |-> "ok", ev |-> [ev |-> "none"]]
 Ev == Trace[l]
 More == l <= Len(Trace)
@@ -91,7 +91,7 @@ TRet == /\ More /\ Ev.ev = "ret"
         \* outcome classes of GC passes, reads and unrelated channel operations are not
         \* compared (e.g. a GC pass legitimately fails on a channel deleted meanwhile)
         \* (nor is that of Close, which reports the error of an earlier failed write again)
-        /\ (Ev.p \in {"g", "r", "c"} \/ pend[Ev.p].op = "close" \/ (pend[Ev.p].res = "ok") = (Ev.res = "ok"))
+        /\ (Ev.p \in {"g", "r", "c", "x"} \/ pend[Ev.p].op = "close" \/ (pend[Ev.p].res = "ok") = (Ev.res = "ok"))
         /\ pend' = [pend EXCEPT ![Ev.p] = NoCall]
         /\ l' = l + 1 /\ UNCHANGED vars
 
